@@ -30,6 +30,7 @@ pub fn run(props: &[(&str, Prop)]) {
         if !seen.insert(line.clone()) { continue; }
         generated += 1;
         rat::overflow_reset();
+        set_entry(&s);
         let out = (p.exec)(&s, &mut stats);
         if rat::overflowed() { *stats.skipped.entry("rational-overflow".into()).or_insert(0) += 1; continue; }
         match out {
